@@ -396,6 +396,17 @@ func runC05(c *Ctx) {
 				copy(q[46:], bytes.Repeat([]byte{0xff}, 32))
 				parse(b58WithChecksum(q))
 			}
+			// header fields in unusual combinations (a zero parent fingerprint on a derived key, a fingerprint / child number
+			// on depth 0): the text form does not judge them -- what serialises is a key
+			for _, hdr := range [][3]int{{1, 0, 5}, {3, 0, 0}, {0, 1, 0}, {0, 0, 9}, {255, 0, 1}} {
+				q := append([]byte{}, p...)
+				q[4] = byte(hdr[0])
+				if hdr[1] == 0 {
+					q[5], q[6], q[7], q[8] = 0, 0, 0, 0
+				}
+				q[9], q[10], q[11], q[12] = 0, 0, 0, byte(hdr[2])
+				parse(b58WithChecksum(q))
+			}
 			// wrong lengths with a valid checksum, leading zero byte variants
 			for n := 70; n <= 90; n++ {
 				q := randBytes(r, n)
@@ -523,7 +534,7 @@ func runC06(c *Ctx) {
 	}
 	// the flag of a WIF value changed after it was encoded / decoded
 	for k := 0; k < c.Pick(24, 200); k++ {
-		c.Call(Event{"op": "WifMutate", "key": ints(scalars[k%len(scalars)]), "net": 1 + k%len(nets), "compressed": k%2 == 0, "via": []string{"new", "decode"}[(k/2)%2]})
+		c.Call(Event{"op": "WifMutate", "key": ints(scalars[k%len(scalars)]), "net": 1 + k%len(nets), "compressed": k%2 == 0, "via": []string{"new", "decode", "decode-after-wipe"}[(k/2)%3]})
 	}
 	// marker byte over all values, every decoded length 0..45, with valid checksums
 	for mk := 0; mk < 256; mk++ {
